@@ -1129,7 +1129,7 @@ func RunSliceExpr(ctx *Task, expr *ast.SliceExpr) (any, ast.DType, *errchain.PlE
 				startInt = 0
 			}
 			for i := startInt; i < endInt && i < length; i += stepInt {
-				result += string(str[i])
+				result += str[i : i+1]
 				if stepInt > length-1-i {
 					// the next index is past the end (and i += stepInt could overflow)
 					break
@@ -1142,7 +1142,7 @@ func RunSliceExpr(ctx *Task, expr *ast.SliceExpr) (any, ast.DType, *errchain.PlE
 				startInt = length - 1
 			}
 			for i := startInt; i > endInt && i >= 0; i += stepInt {
-				result += string(str[i])
+				result += str[i : i+1]
 				if stepInt < -i {
 					// the next index is before the start (and i += stepInt could overflow)
 					break
